@@ -736,10 +736,17 @@ var kC17Q = run.NewKind("c17.query", func(c *run.Ctx, t c17QCase) *run.Fail {
 	if !w.eof && !w.unterm && t.Fault.Var%3 == 0 {
 		file += c17Term(t.Spec.Term)
 	}
+	// white space in front of the query, as in a query written over several lines inside quotes: positions are those of
+	// the text as given
+	lead := ""
+	if t.Via == "arg" || t.Via == "file" {
+		lead = []string{"", "", " ", "\n", "\n  ", "\t", " \n\n ", c17Term(t.Spec.Term) + "    "}[(t.Fault.At+t.Fault.Var)%8]
+	}
+	file = lead + file
 	var opt run.CLIOpt
 	switch t.Via {
 	case "arg":
-		opt = run.CLIOpt{Args: []string{"-n", src}, NoStdin: true}
+		opt = run.CLIOpt{Args: []string{"-n", lead + src}, NoStdin: true}
 	case "file":
 		p := filepath.Join(dir, "q.jq")
 		os.WriteFile(p, []byte(file), 0o644)
@@ -764,13 +771,16 @@ var kC17Q = run.NewKind("c17.query", func(c *run.Ctx, t c17QCase) *run.Fail {
 	if rep == nil {
 		return &run.Fail{Sig: sig + ":cli", Detail: fmt.Sprintf("%s\n%s; exit %d, stderr: %s", where, why, res.Code, run.Clip(string(res.Stderr)))}
 	}
-	cands := []int{w.s}
+	cands := []int{len(lead) + w.s}
 	if w.unterm {
-		cands = append(cands, len(src))
+		cands = append(cands, len(lead)+len(src))
 	}
-	whole := []byte(src)
+	whole := []byte(lead + src)
 	if t.Via != "arg" {
 		whole = []byte(file)
+	}
+	if lead != "" {
+		c.Count("query_reports_behind_leading_white_space", 1)
 	}
 	var verdict string
 	for _, p := range cands {
